@@ -10,7 +10,11 @@ RULE = ('random circuits x stimuli; every case compares a reference configuratio
         '{c_reuse} x {strip_forks}, lane permutation, larger allocation; WaveSim: {c_reuse}, {strip_forks with zero delay on fork inputs}, CPU vs mock-GPU '
         'kernels, lane permutation, c_prop(sims=k), larger allocation, delay data-set selection modes 0 (seed) and 1 (per simulation) vs simulating with '
         'that data set alone. A fork-stripping difference is classified as known finding D13 iff the un-stripped run contains a stem waveform that is '
-        'not strictly increasing on the differing lane. distinct = (circuit, clause, seeds)')
+        'not strictly increasing on the differing lane. wave-strip cases additionally evaluate the hypotheses of the theorems '
+        'KV.C06.strip_equiv / strip_equiv_polind on the real pair of runs (certificate stripOkB and stripOps = real stripped rows '
+        'through the Lean driver; zero delay on fork inputs, capacities, polarity independence, monotone stems numerically) and, '
+        'on every lane where they hold, require equal waveforms on every non-branch signal and branch(un-stripped) = stem(stripped). '
+        'distinct = (circuit, clause, seeds)')
 
 
 def theorems():
@@ -89,6 +93,89 @@ def d13_witness():
     i = np.zeros((5, 1), dtype=np.float32); f = np.zeros((5, 1), dtype=np.float32); f[:4] = 1
     t = np.zeros((5, 1), dtype=np.float32); t[:4, 0] = [9.5, 16.5, 17, 19.5]
     return c, d, i, t, f
+
+
+def wave_strip_inputs(case):
+    """circuit, delays, stimulus of a wave-strip case (the same objects `eval_case` builds)"""
+    if case.get('clause') == 'wave-strip-witness':
+        c, d, i, t, f = d13_witness()
+        return c, d, i, t, f, 1, 16
+    c = pickle.loads(base64.b64decode(case['circuit']))
+    srng = random.Random(case['sseed']); drng = random.Random(case['dseed'])
+    forks_in = [n.ins[0].index for n in c.nodes if n.kind == '__fork__' and len(n.ins) > 0 and n.ins[0] is not None]
+    delays = wc.rand_delays(drng, len(c.lines), datasets=1, polarity_dependent=not case['polind'], zero_forks=forks_in)
+    i, t, f = wc.rand_stim(srng, len(c.s_nodes), case['sims'])
+    return c, delays, i, t, f, case['sims'], case['caps']
+
+
+def strip_theorem(case):
+    """Hypotheses of KV.C06.strip_equiv / strip_equiv_polind on the REAL pair (un-stripped, stripped) of WaveSim objects.
+    returns {'tags': [...], 'broken': [(name, detail)], 'violation': None | (observed, expected)}"""
+    TMIN, TMAX, TOVL = wc.consts()
+    c, d, i, t, f, sims, caps = wave_strip_inputs(case)
+    un = wave_run(c, d, sims, i, t, f, caps, strip=False, reuse=False)
+    sp = wave_run(c, d, sims, i, t, f, caps, strip=True, reuse=False)
+    ops_un = [[int(x) for x in r[:6]] for r in np.array(un.ops)]
+    ops_sp = [[int(x) for x in r[:6]] for r in np.array(sp.ops)]
+    locs_un, caps_un, c_un = np.array(un.c_locs), np.array(un.c_caps), np.array(un.c)
+    locs_sp, caps_sp, c_sp = np.array(sp.c_locs), np.array(sp.c_caps), np.array(sp.c)
+    inputs = set(sp.ppi_offset + int(x) for x in sp.pippi_s_locs)
+    written_sp = set(r[1] for r in ops_sp) | inputs
+    by_loc = {}
+    for w in sorted(written_sp): by_loc.setdefault(int(locs_sp[w]), w)
+    def owner(x):   # the signal whose memory `x` uses in the stripped simulator (a branch shares the memory of its stem)
+        return x if x in written_sp else by_loc.get(int(locs_sp[x]), x)
+    st = {r[1]: owner(r[1]) for r in ops_un if r[1] not in written_sp}     # real branch -> stem map
+    zidx = int(un.zero_idx)
+    rows_un = '/'.join(','.join(map(str, r)) for r in ops_un) or '~'
+    rows_sp = '/'.join(','.join(map(str, r[:2] + [owner(x) for x in r[2:6]] + r[2:6])) for r in ops_sp) or '~'
+    st_s = ','.join(f'{b}:{s}' for b, s in sorted(st.items())) or '~'
+    ans = common.run_driver([f'stripcert {zidx} {st_s} {rows_un} {rows_sp}'])[0]
+    res = {'tags': [], 'broken': [], 'violation': None}
+    cert = ans.startswith('ok=1 eq=1 ')
+    if not cert:
+        res['broken'].append(('stripOkB / stripOps on the real op rows', f'{ans} st={st_s} un={rows_un[:400]} sp={rows_sp[:400]}'))
+    res['tags'].append('strip-cert:' + ('ok' if cert else 'FAIL'))
+    res['tags'].append('strip-forkrows:' + ('0' if not st else '1-3' if len(st) <= 3 else '4+'))
+    # numeric hypotheses shared by both theorems
+    dd = np.array(un.delays)[0]
+    forkrows = [r for r in ops_un if r[1] in st]
+    good = bool((dd >= 0).all()) and all(int(caps_un[r[1]]) >= 4 for r in ops_un)
+    zero = all(bool((dd[r[2]] == 0).all()) for r in forkrows)
+    polind = all(bool((dd[l] == dd[l, 0, 0]).all()) for l in range(dd.shape[0]))
+    capsok = all(int(caps_un[r[2]]) <= int(caps_un[r[1]]) for r in forkrows)
+    written_un = set(r[1] for r in ops_un)
+    def wave(cc, locs, capsA, x, lane): return wc.read_wave(cc, int(locs[x]), int(capsA[x]), lane)
+    def wellformed(ents): return all(e > TMIN for e in ents[1:])
+    def increasing(ents): return all(a < b for a, b in zip(ents, ents[1:]))
+    n_polind = n_run = n_none = 0
+    for lane in range(sims):
+        zw = wave(c_un, locs_un, caps_un, zidx, lane)
+        zero_ok = zw[1] == 'M'
+        env_ok = zero_ok and all(wellformed(w[0]) and increasing(w[0]) and w[1] in 'MO' for w in (wave(c_un, locs_un, caps_un, x, lane) for x in inputs))
+        env_len = all(len(wave(c_un, locs_un, caps_un, r[2], lane)[0]) < int(caps_un[r[1]]) for r in forkrows if r[2] not in written_un)
+        fork_in = zero_ok and all(wellformed(w[0]) and increasing(w[0]) and len(w[0]) < int(caps_un[r[1]])
+                                  for r in forkrows for w in [wave(c_un, locs_un, caps_un, r[2], lane)])
+        thm_polind = cert and good and zero and polind and capsok and env_ok and env_len
+        thm_run = cert and good and zero and fork_in
+        if thm_polind and not fork_in:
+            res['broken'].append(('strip_equiv_polind ⇒ ForkIn', f'polarity-independent delays but a stem waveform of the real un-stripped run is not strictly increasing / too long (lane {lane})'))
+        n_polind += thm_polind; n_run += thm_run and not thm_polind; n_none += not (thm_run or thm_polind)
+        if (thm_polind or thm_run) and res['violation'] is None:
+            for x in sorted(written_sp):
+                a, b = wave(c_sp, locs_sp, caps_sp, x, lane), wave(c_un, locs_un, caps_un, x, lane)
+                if a != b:
+                    res['violation'] = ({'clause': 'wave-strip', 'theorem': 'strip_equiv_polind' if thm_polind else 'strip_equiv', 'lane': lane, 'signal': x,
+                                         'stripped': wc.fmt_wave(*a)}, {'un-stripped': wc.fmt_wave(*b)})
+                    break
+            for bsig, ssig in sorted(st.items()):
+                a, b = wave(c_sp, locs_sp, caps_sp, ssig, lane), wave(c_un, locs_un, caps_un, bsig, lane)
+                if a != b and res['violation'] is None:
+                    res['violation'] = ({'clause': 'wave-strip', 'theorem': 'strip_equiv_polind' if thm_polind else 'strip_equiv', 'lane': lane, 'stem': ssig,
+                                         'branch': bsig, 'stripped-stem': wc.fmt_wave(*a)}, {'un-stripped-branch': wc.fmt_wave(*b)})
+    res['lanes'] = {'strip-thm-lanes:polind': n_polind, 'strip-thm-lanes:run(ForkIn)only': n_run, 'strip-thm-lanes:not-applicable': n_none}
+    res['tags'].append('strip-thm:' + ('polind' if n_polind == sims else 'run(ForkIn)' if n_polind + n_run == sims else 'partly' if n_polind + n_run > 0 else 'not-applicable'))
+    return res
 
 
 def eval_case(case):
@@ -191,8 +278,24 @@ def oracle(ck, n, thorough=False):
             ck.hist['off-grid-discarded'] += 1; continue
         except Exception as ex:
             ok, obs, exp = False, {'raised': f'{type(ex).__name__}: {ex}'[:300], 'clause': cs['clause']}, None
+        tags = ['clause:' + cs['clause'], f"polind:{cs['polind']}"]
+        if cs['clause'] in ('wave-strip', 'wave-strip-witness'):
+            try:
+                th = strip_theorem(cs)
+            except wc.OffGrid:
+                th = None
+            except Exception as ex:
+                th = {'tags': [], 'broken': [('strip_theorem raised', f'{type(ex).__name__}: {ex}'[:300])], 'violation': None, 'lanes': {}}
+            if th is not None:
+                tags += th['tags']
+                for k, v in th.get('lanes', {}).items(): ck.hist[k] += v
+                for name, detail in th['broken']:
+                    ck.broken_tie(name, detail, inp={k: v for k, v in cs.items() if k != 'circuit'})
+                if th['violation'] is not None:
+                    ck.violation('config-wave-strip', 'un-stripped and stripped WaveSim differ although the hypotheses of the fork-stripping theorem hold',
+                                 cs, th['violation'][0], th['violation'][1])
         ck.case(key=(cs['circuit'][:80], cs['clause'], cs['sseed'], cs['dseed']), sample={k: v for k, v in cs.items() if k != 'circuit'},
-                tag=['clause:' + cs['clause'], f"polind:{cs['polind']}"])
+                tag=tags)
         if not ok:
             cls = 'D13-nonmonotone-stem' if (obs.get('clause') == 'wave-strip' and obs.get('nonmonotone_stem')) else 'config-' + str(obs.get('clause'))
             ck.violation(cls, f"results differ between configurations ({obs.get('clause')})", cs, obs, exp)
@@ -210,5 +313,11 @@ def run(ck):
 
 def replay(rep):
     ok, obs, exp = eval_case(rep['input'])
+    if ok and rep['input'].get('clause') in ('wave-strip', 'wave-strip-witness'):
+        th = strip_theorem(rep['input'])
+        if th['violation'] is not None:
+            ok, (obs, exp) = False, th['violation']
+        elif th['broken']:
+            ok, obs, exp = False, {'broken-correspondence': th['broken']}, None
     print(json.dumps({'ok': ok, 'observed': obs, 'expected': exp}, default=str))
     return 0 if ok else 1
